@@ -999,7 +999,11 @@ func (sc *Scope) trCall(x *ECall) (Term, types.Type) {
 		t, ty := arg(0)
 		return fc.lenOf(ty, t, sc.curEnv()), tInt
 	case "cap":
-		t, _ := arg(0)
+		t, cty := arg(0)
+		if _, isChan := cty.Underlying().(*types.Chan); isChan {
+			fc.eng.GDecl("chancap", "(declare-fun chancap (Int) Int)")
+			return T(SInt, "(chancap %s)", t.S), tInt
+		}
 		return T(SInt, "(s_cap %s)", t.S), tInt
 	case "has":
 		m, mty := arg(0)
